@@ -75,6 +75,8 @@ def run(ck):
     ck.rule("C04.R4", "MacroCallsite registration state machine", floor=4)
     ck.rule("C04.R8", "the count behind get_default's fast path moves by atomic read-modify-write only, once per guard (as C02.R1): a racing set_default is never un-counted", floor=9)
     ck.rule("C04.R7", "the std and no_std registries talk to collectors and callsites through the same set of calls", floor=4)
+    ck.rule("C04.R9", "no_std registry: a first hit's interest-then-push is one step with respect to a rebuild (the std registry's lock, R1)", floor=1)
+    ck.rule("C04.R10", "the collector that receives an emission is the one whose filter enabled it: one dispatcher lookup per emission", floor=1)
     ck.rule("C04.R6", "collector wrappers pass register_callsite / on_register_dispatch / max_level_hint on to the wrapped collector (as C09.R1/R2)", floor=12)
     ck.rule("C04.R5", "every turnover re-evaluates interests and the max level (see C01.R5–R7)", floor=2)
     r1(ck, F)
@@ -83,6 +85,8 @@ def run(ck):
     r4(ck, F)
     r5(ck, F)
     r7(ck, F)
+    r9(ck)
+    r10(ck, F)
     from rules import C02
     C02.r1(ck, F, rid="C04.R8")
     # a collector reached through Box/Arc/Layered must itself be offered every callsite (C09.R1/R2, instantiated)
@@ -392,3 +396,64 @@ def r7(ck, F, rid="C04.R7"):
             ck.ok(rid, key, detail=sorted(ea))
         else:
             ck.bad(rid, key, where(a.raw["sp"]), "only with std: %s; only without std: %s" % (sorted(ea - eb), sorted(eb - ea)), fn=p)
+
+
+def r9(ck):
+    """R1 in the no_std registry. `register` computes the callsite's interest from the current global dispatcher and then
+    pushes it; a rebuild (rebuild_interest_cache / set_global_default's re-evaluation) walks the list. Unless both run
+    inside one critical section, a rebuild that falls between the two steps neither sees the callsite nor is seen by it:
+    the callsite keeps the interest the *old* dispatcher/filter gave. Any mutual-exclusion primitive counts (the vendored
+    spin::Mutex, a lock flag taken with an atomic RMW); nothing at all is the violation."""
+    N = Facts("nostd-core")
+    ck.configs.append("nostd-core")
+    b = N.body(CS + "register")
+    rb = N.body(CS + "rebuild_interest")
+    key = "no_std register: computing the interest and pushing the callsite are one step with respect to a rebuild"
+    if not (ck.anchor("C04.R9", "no_std register", b) and ck.anchor("C04.R9", "no_std rebuild_interest", rb)):
+        return
+
+    def exclusion_calls(x):
+        out = []
+        for bb, t in x.calls():
+            c = t["callee"]
+            pth = c.get("path", "")
+            if c.get("method") in ("lock", "read", "write", "try_lock") and ("Mutex" in pth or "RwLock" in pth):
+                out.append(bb)
+            if c.get("method") in ("compare_exchange", "compare_exchange_weak", "swap", "fetch_or") and "AtomicBool" in pth:
+                out.append(bb)
+        return out
+    ops = [bb for bb, t in b.calls() if t["callee"].get("path", "").endswith("::rebuild_callsite_interest") or t["callee"].get("method") == "push"]
+    if len(ops) != 2:
+        ck.bad("C04.R9", key, where(b.raw["sp"]), "expected one interest computation and one push in no_std register, found %d calls" % len(ops), fn=b.path)
+        return
+    excl = exclusion_calls(b)
+    callers_excl = []
+    for c, _bb, _t in N.callers().get(CS + "rebuild_interest", []):
+        callers_excl += exclusion_calls(c)
+    if excl and all(any(b.dominates(e, o) for e in excl) for o in ops) and (exclusion_calls(rb) or callers_excl):
+        ck.ok("C04.R9", key, fn=b.path)
+    else:
+        ck.bad("C04.R9", key, where(b.raw["sp"]), "no_std `register` takes no lock around rebuild_callsite_interest + REGISTRY.push (the std variant holds "
+               "REGISTRY.dispatchers): a rebuild or set_global_default between the two steps leaves the callsite at the interest the previous "
+               "dispatcher answered, never re-offered to the live one", fn=b.path)
+
+
+def r10(ck, F):
+    """An event/span macro asks `is_enabled` and then delivers. If the two steps resolve "the current dispatcher"
+    independently, a collector installed in between (set_global_default / set_default on another thread cannot affect
+    this thread's scoped default, but the global one can) receives an emission its own `enabled` was never asked about,
+    or that a cached `always` from other collectors let through."""
+    asks = F.body("tracing::__macro_support::MacroCallsite::is_enabled")
+    key = "event macros: the dispatcher that delivers is the one that was asked"
+    delivers = F.body("tracing_core::event::Event::<'a>::dispatch")
+    if not (ck.anchor("C04.R10", "MacroCallsite::is_enabled", asks) and ck.anchor("C04.R10", "Event::dispatch", delivers)):
+        return
+    GD = "tracing_core::dispatch::get_default"
+    a = [bb for bb, t in asks.calls() if t["callee"].get("path") == GD]
+    d = [bb for bb, t in delivers.calls() if t["callee"].get("path") == GD]
+    if a and d:
+        ck.bad("C04.R10", key, where(delivers.raw["sp"]), "MacroCallsite::is_enabled and Event::dispatch each call dispatch::get_default(): a global default installed "
+               "between the two lookups receives the event although its filter was never consulted (or a cached `always` from the collectors "
+               "that existed at registration let it through)", fn=delivers.path)
+    else:
+        ck.ok("C04.R10", key, fn=delivers.path)
